@@ -85,6 +85,12 @@ class Derivate:
         knotvector = curve.knotvector
         matrix = heavy.Calculus.derivate_nonrational_spline(tuple(knotvector))
         ctrlpoints = np.dot(matrix, curve.ctrlpoints)
+        degree = knotvector.degree
+        ctrlpoints = [
+            ctrlpoints[i - 1]
+            for i in range(1, knotvector.npts)
+            if knotvector[i + degree] != knotvector[i]
+        ]
         nodes = tuple(
             knot
             for knot in knotvector.knots
